@@ -68,13 +68,18 @@ CLAIMS["C01"] = dict(
          "in reused slots is drained again within the bound (iterates). Theorems C01_kernel_state_fixed / _group "
          "(FcProps/C01state.lean): at every boundary of every history the cached ready count equals the number of set bits "
          "below the capacity, no bit is set beyond it, and a parent waker is stored once any child holds a waker - the "
-         "internal state the stdv configuration reads from the crate after every operation and compares with the model. For "
-         "nests, and for groups whose membership changes while they are being drained, liveness is checked on the real code "
+         "internal state the stdv configuration reads from the crate after every operation and compares with the model. "
+         "Theorems C01_nest_fut_resolves (join / try_join / race / race_ok outside, any of them inside, any mix of plain and "
+         "nested children), C01_nest_stream_ends (merge / chain / zip outside and inside) and their special cases "
+         "(FcProps/C01liveN.lean; executor for nests Fc/ExecN.lean): a one-level nest of well-behaved leaves reaches its "
+         "final outcome within 3*steps+1 rounds of the wake-only executor, which prods leaves and plain children alike - "
+         "the wake-up of a leaf travels through both levels and the re-poll reaches that leaf (2*steps+2 refuted). For "
+         "groups whose membership changes while they are being drained, liveness is checked on the real code "
          "only: the harness's wake-only executor (profiles drain, refill) must never get stuck (monitor LV; the environment "
          "never re-wakes a child that already invoked its waker, the round budget is a multiple of the proven bound, and a "
          "watchdog turns a deadlock into a reported case).",
     note=TB + " Liveness by theorem for join, try_join, race, race_ok, merge, chain, zip, wait_until (for every schedule "
-         "of the environment) and for groups filled before they are drained and refilled between drains (every schedule); for nests "
+         "of the environment), for one-level nests, and for groups filled before they are drained and refilled between drains (every schedule); for groups changed mid-drain "
          "by the drain runs on the real code. In the configuration stdv the crate's fc-verif hook exposes the readiness "
          "bits / cached count / parent-waker flag, compared with the model's World after every operation.",
     design_ref="DESIGN.md §7 C01, Appendix A")
@@ -89,7 +94,13 @@ CLAIMS["C20"] = dict(
          "Theorem C20_concurrent_group (FcProps/C20g.lean): the same monitor for FutureGroup/StreamGroup over every "
          "group history with fresh members of the right kind, incl. members inserted into reused slots and growth while "
          "members are pending (insert and resize arm the new member's slot; a never-completing member never keeps a woken "
-         "sibling from being polled).",
+         "sibling from being polled). Second sentence of the property, as liveness (FcProps/C20live.lean; Fc/ExecStuck.lean): children may be well-behaved "
+         "OR never-completing (Pending steps only, with arbitrary wake-ups, then silent for ever); for every schedule and "
+         "busy environment, within 3*steps+1 rounds - C20_join_progress / C20_try_join_progress: the run is final or at "
+         "rest (Pending, not woken, every scripted step consumed) with every well-behaved sibling resolved to its value; "
+         "C20_race_delivers / C20_race_ok_delivers: a well-behaved (Ok) sibling's result is delivered next to "
+         "never-completing ones; C20_merge_delivers: every item of every well-behaved input has been yielded and those "
+         "inputs have ended; C20_zip_progress_false: the statement is false for zip (why the property excludes it).",
     note=TB,
     design_ref="DESIGN.md §7 C20")
 
